@@ -61,7 +61,7 @@ def check(chk: Check) -> None:
     R5 = chk.rule('C10.R5', 'lambda scopes are local and transient: parameters are bound in a fresh dict pushed through '
                             'make_scope around the body evaluation, never written into an existing scope', floor=1)
     R6 = chk.rule('C10.R6', 'a lambda called from a later eval must not resolve names in the earlier call\'s scope stack '
-                            '(= C01.R7, state escape)', floor=12)
+                            '(= C01.R7, state escape)', floor=8)
     chk.decided += ['lookup order and write target (R1)', 'push/pop typestate incl. exceptional exits (R2)',
                     'builtins below host names, host mapping by identity (R3)', 'FUNCTIONS immutable (R4)',
                     'lambda parameter scopes (R5)', 'cross-call scope capture (R6)']
